@@ -17,19 +17,39 @@ def parseKind (c : Char) : Option Kind :=
   | 'C' => some .obsCounter | 'U' => some .obsUpdown | 'G' => some .obsGauge
   | _ => none
 
+def digit (c : Char) : Option Nat := if '0' ≤ c ∧ c ≤ '9' then some (c.toNat - 48) else none
+
 def parseInst (s : String) : Option Inst :=
   match s.toList with
   | [n, k] => do
     if n != 'i' && n != 'f' then none
     pure { float := n == 'f', kind := ← parseKind k }
+  | [n, k, ':', sc, nm, d, u] => do
+    if n != 'i' && n != 'f' then none
+    pure { float := n == 'f', kind := ← parseKind k, scope := ← digit sc, name := some (← digit nm),
+           desc := ← digit d, unit := ← digit u }
+  | _ => none
+
+/-- extra criteria: letters D U N V S each followed by one digit; digit 0 = zero value = criterion not given -/
+def parseCrit (v : View) : List Char → Option View
+  | [] => some v
+  | c :: d :: rest => do
+    let n ← digit d
+    let o := if n == 0 then none else some n
+    let v ← match c with
+      | 'D' => some { v with desc := o }
+      | 'U' => some { v with unit := o }
+      | 'N' => some { v with scopeName := o }
+      | 'V' => some { v with scopeVersion := o }
+      | 'S' => some { v with scopeSchema := o }
+      | _ => none
+    parseCrit v rest
   | _ => none
 
 def digitsOf (l : List Char) : Option (List Nat) :=
   l.mapM fun c => if '0' ≤ c ∧ c ≤ '9' then some (c.toNat - 48) else none
 
-def parseView (s : String) : Option View :=
-  match s.splitOn "/" with
-  | [p, k, rn, f, a] => do
+def parseView5 (p k rn f a : String) : Option View := do
     let pat ← match p.toList with
       | ['-'] => some NamePat.none
       | ['s'] => some NamePat.star
@@ -60,6 +80,13 @@ def parseView (s : String) : Option View :=
       | "b" => some (some AggSel.expo)
       | _ => none
     pure { pat := pat, kind := kind, rename := rename, filter := filter, agg := agg }
+
+def parseView (s : String) : Option View :=
+  match s.splitOn "/" with
+  | [p, k, rn, f, a] => parseView5 p k rn f a
+  | [p, k, rn, f, a, c] => do
+    let v ← parseView5 p k rn f a
+    if c == "-" then pure v else parseCrit v c.toList
   | _ => none
 
 def parseSet (s : String) : Option CSet :=
@@ -100,6 +127,7 @@ def parseTps (s : String) : Option (List Temporality) :=
 /-! ### canonical metrics (points sorted by attribute id) -/
 
 structure OMetric where
+  scope : Nat := 0
   name : Name
   ty : String
   pts : List (Attr × PV)
@@ -109,12 +137,23 @@ def renderName : Name → String
   | .inst j => s!"i{j}"
   | .ren k up => if up then s!"R{k}" else s!"r{k}"
 
-def parseName (s : String) : Option Name :=
+def parseName1 (s : String) : Option Name :=
   match s.toList with
   | 'i' :: r => (parseNat (String.ofList r)).map Name.inst
   | 'r' :: r => (parseNat (String.ofList r)).map fun k => Name.ren k false
   | 'R' :: r => (parseNat (String.ofList r)).map fun k => Name.ren k true
   | _ => none
+
+/-- `<name>` or `<name>#<scope>` -/
+def parseName (s : String) : Option (Nat × Name) :=
+  match s.splitOn "#" with
+  | [n] => (parseName1 n).map fun x => (0, x)
+  | [n, sc] => do pure (← parseNat sc, ← parseName1 n)
+  | _ => none
+
+/-- stable sort of the metrics of a collection by scope id (the SDK groups metrics by scope; the harness prints the
+scopes in id order) -/
+def sortByScope {α : Type} (sc : α → Nat) (l : List α) : List α := (sortByAttr (l.map fun m => (sc m, m))).map (·.2)
 
 def renderTy (dt : DT) (tp : Temporality) (float : Bool) : String :=
   let t := if tp == .delta then "d" else "c"
@@ -128,7 +167,7 @@ def renderTy (dt : DT) (tp : Temporality) (float : Bool) : String :=
 def sortPts (pts : List (Attr × PV)) : List (Attr × PV) := sortByAttr pts
 
 def canonMetric (tp : Temporality) (m : Metric) : OMetric :=
-  { name := m.name, ty := renderTy m.dt tp m.float, pts := sortPts m.pts }
+  { scope := m.scope, name := m.name, ty := renderTy m.dt tp m.float, pts := sortPts m.pts }
 
 def renderPV : PV → String
   | .num v => s!"{v}"
@@ -143,7 +182,7 @@ def parsePV (s : String) : Option PV :=
   | _ => none
 
 def renderOMetric (dec : Attr → String) (m : OMetric) : String :=
-  s!"{renderName m.name}~{m.ty}~" ++ "+".intercalate (m.pts.map fun p => s!"{dec p.1}={renderPV p.2}")
+  s!"{renderName m.name}{if m.scope == 0 then "" else s!"#{m.scope}"}~{m.ty}~" ++ "+".intercalate (m.pts.map fun p => s!"{dec p.1}={renderPV p.2}")
 
 def parseOMetric (s : String) : Option OMetric :=
   match s.splitOn "~" with
@@ -152,7 +191,8 @@ def parseOMetric (s : String) : Option OMetric :=
       match q.splitOn "=" with
       | [a, v] => do pure (code (← parseSet a), ← parsePV v)
       | _ => none
-    pure { name := ← parseName n, ty := ty, pts := sortPts ps }
+    let (sc, nm) ← parseName n
+    pure { scope := sc, name := nm, ty := ty, pts := sortPts ps }
   | _ => none
 
 def parseORec (s : String) : Option (Nat × List OMetric) :=
@@ -172,6 +212,8 @@ structure RefSt where
   cur : List (Nat × CSet × Int) := []
   /-- (reader, expected metrics, all named predicates hold of the observed record) per collection -/
   out : List (Nat × List OMetric) := []
+  /-- per collection: the stream index of each metric of `out`, in order -/
+  outIdx : List (List Nat) := []
 
 def feed (p : Pipe) (j : Nat) (a : CSet) (x : Int) (win : List (List (Attr × Int))) : List (List (Attr × Int)) :=
   ((p.meas[j]?).getD []).foldl (fun w idx =>
@@ -213,11 +255,17 @@ def refStep (L : Nat) (insts : List Inst) (pipes : List Pipe) (st : RefSt) : Op 
           | some g =>
             let (pts, w', pv') := refCollect L p.tp g (w.getD idx []) (pv.getD idx [])
             (if pts.isEmpty then none
-             else some ({ name := s.name, ty := renderTy g.dt p.tp s.float, pts := sortPts pts } : OMetric), w', pv')
+             else some ({ scope := s.scope, name := s.name, ty := renderTy g.dt p.tp s.float, pts := sortPts pts } : OMetric), w', pv')
           | none => (none, [], [])
         | none => (none, [], [])
+      -- the present metrics with their stream index, grouped by scope like the SDK's ScopeMetrics
+      let present : List (OMetric × Nat) := (List.range p.streams.length).filterMap fun idx =>
+        match res[idx]? with
+        | some (some m, _, _) => some (m, idx)
+        | _ => none
       { st with win := st.win.set r (res.map (·.2.1)), prev := st.prev.set r (res.map (·.2.2)),
-                out := st.out ++ [(r, res.filterMap (·.1))] }
+                out := st.out ++ [(r, (sortByScope (·.1.scope) present).map (·.1))],
+                outIdx := st.outIdx ++ [(sortByScope (·.1.scope) present).map (·.2)] }
 
 /-- the windows (before the collection) of every stream at every collection, for the named predicates -/
 def windowsAt (L : Nat) (insts : List Inst) (pipes : List Pipe) (ops : List Op) (st0 : RefSt) :
@@ -237,7 +285,7 @@ def windowsAt (L : Nat) (insts : List Inst) (pipes : List Pipe) (ops : List Op) 
           match p.streams[idx]? with
           | some s =>
             match s.agg with
-            | some g => some (g, p.tp, s.name, renderTy g.dt p.tp s.float, w.getD idx [],
+            | some g => some (g, p.tp, s.name, s!"{s.scope}:{renderTy g.dt p.tp s.float}", w.getD idx [],
                               (st.prev.getD r []).getD idx [])
             | none => none
           | none => none
@@ -250,7 +298,7 @@ def namedOK (L : Nat) (ws : List (Agg × Temporality × Name × String × List (
     (obs : List OMetric) : Bool :=
   obs.all fun m =>
     Spec.limitOK L m.pts &&
-    match ws.filter (fun w => w.2.2.1 == m.name && w.2.2.2.1 == m.ty) with
+    match ws.filter (fun w => w.2.2.1 == m.name && w.2.2.2.1 == s!"{m.scope}:{m.ty}") with
     | [w] =>
       let isPsumDelta := (match w.1 with | .psum _ => true | _ => false) && w.2.1 == .delta
       let win := w.2.2.2.2.1
@@ -281,7 +329,8 @@ def judge (L : Nat) (tps : List Temporality) (insts : List Inst) (views : List V
       let model := Sys.run L tps views insts ops
       let sys0 := Sys.init L tps views insts
       let mrecs := model.recs.map fun rc =>
-        (rc.1, rc.2.map (canonMetric (match sys0.pipes[rc.1]? with | some p => p.tp | none => .cumulative)))
+        (rc.1, sortByScope (·.scope)
+          (rc.2.map (canonMetric (match sys0.pipes[rc.1]? with | some p => p.tp | none => .cumulative))))
       -- decoding table for rendering attribute ids
       let sets := ops.filterMap fun o => match o with
         | .meas _ a _ => some a
@@ -331,6 +380,15 @@ def judge (L : Nat) (tps : List Temporality) (insts : List Inst) (views : List V
           tagIf multi "multi-match" ++ tagIf dedup "dedup-or-drop" ++ tagIf fanout "fan-out" ++
           tagIf shared "shared-stream" ++
           tagIf (views.any fun v => !v.valid) "invalid-view" ++
+          tagIf ((insts.map (·.scope)).eraseDups.length ≥ 2) "multi-scope" ++
+          tagIf (views.any fun v => v.scopeName.isSome || v.scopeVersion.isSome || v.scopeSchema.isSome) "scope-criterion" ++
+          tagIf (views.any fun v => v.pat.wild && (v.scopeName.isSome || v.scopeVersion.isSome || v.scopeSchema.isSome))
+            "scoped-wildcard" ++
+          tagIf (views.any fun v => v.desc.isSome || v.unit.isSome) "desc-unit-criterion" ++
+          tagIf (views.any fun v => (List.range insts.length).any fun j => match insts[j]? with
+            | some i => !v.matches (i.name.getD j) i &&
+                        ({ v with scopeName := none, scopeVersion := none, scopeSchema := none } : View).matches (i.name.getD j) i
+            | none => false) "excluded-by-scope-only" ++
           tagIf (allStreams.any fun s => match s.agg with | some (.sum _) => true | _ => false) "sum" ++
           tagIf (allStreams.any fun s => match s.agg with | some (.psum _) => true | _ => false) "precomputed-sum" ++
           tagIf (allStreams.any fun s => match s.agg with | some (.lv _) => true | _ => false) "last-value" ++
@@ -342,6 +400,73 @@ def judge (L : Nat) (tps : List Temporality) (insts : List Inst) (views : List V
                nontrivial := mrecs.any fun rc => !rc.2.isEmpty,
                branches := if tags.isEmpty then "-" else ",".intercalate tags,
                model := " ".intercalate mstr }
+
+/-- everything the per-stream judgement needs about ONE sequential order of the operations -/
+structure VarData where
+  mrecs : List (Nat × List OMetric)
+  ref : List (Nat × List OMetric)
+  idxs : List (List Nat)
+  wins : List (Nat × List (Agg × Temporality × Name × String × List (Attr × Int) × List (Attr × Int)))
+
+def variantData (L : Nat) (tps : List Temporality) (insts : List Inst) (views : List View)
+    (opToks : List (List String)) : Option VarData := do
+  let ops ← opToks.mapM parseOp
+  let model := Sys.run L tps views insts ops
+  let sys0 := Sys.init L tps views insts
+  let mrecs := model.recs.map fun rc =>
+    (rc.1, sortByScope (·.scope)
+      (rc.2.map (canonMetric (match sys0.pipes[rc.1]? with | some p => p.tp | none => .cumulative))))
+  let st0 : RefSt := { win := sys0.pipes.map fun p => p.streams.map fun _ => [],
+                       prev := sys0.pipes.map fun p => p.streams.map fun _ => [] }
+  let fin := ops.foldl (refStep L insts sys0.pipes) st0
+  pure { mrecs := mrecs, ref := fin.out, idxs := fin.outIdx, wins := windowsAt L insts sys0.pipes ops st0 }
+
+/-- Two CONCURRENT measurements (`p`/`r`) take effect in each aggregate function (each stream of each reader has its
+own lock) in SOME order, chosen independently per stream; streams are independent of each other
+(`stream_sees_only_its_own_measurements` in Props.lean), so the history of every stream must be the model's — and
+satisfy the Spec — for one of the sequential orders, not necessarily the same order for all streams.
+Returns (agree, spec ok, different streams exhibit different orders). -/
+def perStream (L : Nat) (vds : List VarData) (orecs : List (Nat × List OMetric)) : Bool × Bool × Bool :=
+  match vds.head? with
+  | none => (false, false, false)
+  | some v0 =>
+    let shape :=
+      orecs.length == v0.mrecs.length &&
+      vds.all (fun v => v.idxs == v0.idxs && v.mrecs.length == v0.mrecs.length && v.ref.length == v0.mrecs.length &&
+                        v.wins.length == v0.mrecs.length) &&
+      (List.range orecs.length).all fun c =>
+        match orecs[c]?, v0.mrecs[c]?, v0.idxs[c]? with
+        | some o, some m, some ix =>
+          o.1 == m.1 && o.2.length == ix.length &&
+          vds.all fun v => match v.mrecs[c]?, v.ref[c]? with
+            | some vm, some vr => vm.2.length == ix.length && vr.2.length == ix.length
+            | _, _ => false
+        | _, _, _ => false
+    if !shape then (false, false, false)
+    else
+      -- the cells (record, position) of every stream (reader, stream index)
+      let cells : List ((Nat × Nat) × (Nat × Nat)) :=
+        (List.range orecs.length).flatMap fun c =>
+          match orecs[c]?, v0.idxs[c]? with
+          | some o, some ix => (List.range ix.length).map fun k => ((o.1, ix.getD k 0), (c, k))
+          | _, _ => []
+      let streams := (cells.map (·.1)).eraseDups
+      let cellOf := fun (recs : List (Nat × List OMetric)) (ck : Nat × Nat) =>
+        match recs[ck.1]? with
+        | some rc => rc.2[ck.2]?
+        | none => none
+      let agreeS := fun (st : Nat × Nat) (v : VarData) =>
+        (cells.filter (·.1 == st)).all fun cl => cellOf orecs cl.2 == cellOf v.mrecs cl.2
+      let specS := fun (st : Nat × Nat) (v : VarData) =>
+        (cells.filter (·.1 == st)).all fun cl =>
+          match cellOf orecs cl.2, v.wins[cl.2.1]? with
+          | some o, some w => cellOf v.ref cl.2 == some o && namedOK L w.2 [o]
+          | _, _ => false
+      let choice := fun (st : Nat × Nat) => vds.findIdx? fun v => agreeS st v && specS st v
+      let agree := streams.all fun st => vds.any (agreeS st)
+      let spec := streams.all fun st => vds.any (specS st)
+      let chosen := streams.filterMap choice
+      (agree, spec, chosen.eraseDups.length > 1)
 
 def stepLine (_ : Unit) (toks : List String) : Unit × Option Verdict :=
   let (inp, obs) := splitObs toks
@@ -365,7 +490,15 @@ def stepLine (_ : Unit) (toks : List String) : Unit × Option Verdict :=
         else if v0.agree && v0.spec == "ok" then pure (tag v0 "forced-race")
         else match vs.find? (fun v => v.agree && v.spec == "ok") with
           | some v => pure (tag v "forced-race,racer-first")
-          | none => pure (tag v0 "forced-race")
+          | none =>
+            -- no single order explains all streams: judge every stream against its own order
+            let vds ← variants.mapM (variantData L tps insts views)
+            match obs.mapM parseORec with
+            | none => pure (tag v0 "forced-race")
+            | some orecs =>
+              let (agree, spec, mixed) := perStream L vds orecs
+              pure (tag { v0 with agree := agree, spec := if spec then "ok" else "FAIL" }
+                        (if mixed then "forced-race,per-stream-order" else "forced-race"))
     ((), r)
   | _ => ((), none)
 
